@@ -152,3 +152,223 @@ C("_declare_fault", arg_types={**SELF, "cond": T.Enum(CC)}, props=("C14",), resu
       Clause("C14.no_pdu_no_indication", lambda o, n, r: len([e for e in n.trace if e["kind"] in ("pdu", "ind", "vfs")]) == 0, ("C14",)),
   ],
   modular=False)
+
+
+# ==============================================================================================
+# helpers over the trace of the verified path
+# ==============================================================================================
+def fault_cbs(n):
+    return [e for e in n.trace if e["kind"] == "fault_cb"]
+
+
+def emitted(n, cls=None):
+    return [e["pdu"] for e in n.trace if e["kind"] == "pdu" and (cls is None or e["pdu"].cls is cls)]
+
+
+def inds(n, name=None):
+    return [e for e in n.trace if e["kind"] == "ind" and (name is None or e["name"] == name)]
+
+
+def vfs_ops(n, op=None):
+    return [e for e in n.trace if e["kind"] == "vfs" and (op is None or e["op"] == op)]
+
+
+def timer_resets(n):
+    return [e for e in n.trace if e["kind"] == "timer_reset"]
+
+
+def declared(n, cond, cb=None):
+    """formula: exactly one fault callback on this path and it carries `cond` (and is of kind cb)"""
+    f = fault_cbs(n)
+    if len(f) != 1:
+        return False
+    if cb is not None and f[0]["name"] != cb:
+        return False
+    return Eq_(f[0]["cond"], cond)
+
+
+def no_fault(n):
+    return len(fault_cbs(n)) == 0
+
+
+def default_table(o):
+    return table_is_default(table_of(o.self))
+
+
+def step_is(h, *steps):
+    return one_of(h.states.step, list(steps))
+
+
+def qempty(h):
+    return h._pdus_to_be_sent.length() == 0
+
+
+DEFAULT = [("default_fault_table", default_table)]
+
+
+def unchanged(o, n, *paths):
+    fs = []
+    for p in paths:
+        a, b = o.self, n.self
+        for part in p.split("."):
+            a = getattr(a, part)
+            b = getattr(b, part)
+        fs.append(Eq_(a, b))
+    return And_(*fs)
+
+
+# ==============================================================================================
+# C04 (receiver): Finished PDU positive acknowledgement procedure
+# ==============================================================================================
+def _pa(h):
+    return h._params.positive_ack_params
+
+
+def _pa_expired(o):
+    return B(val(_pa(o.self).ack_timer).expired)
+
+
+def _pa_limit_hit(o):
+    return _pa(o.self).ack_counter + 1 >= rcfg(o.self).positive_ack_timer_expiration_limit
+
+
+def _pa_pre(o):
+    h = o.self
+    return And_(step_is(h, STEP.WAITING_FOR_FINISHED_ACK), ne(h.states.state, IDLE),
+                Implies_(_pa_expired(o), qempty(h)))
+
+
+def _fin_pdu_is_live(n):
+    ps = emitted(n, FinishedPdu)
+    return len(ps) == 1 and ps[0].finished_params.oid == n.self._params.finished_params.oid
+
+
+C("_handle_positive_ack_procedures", arg_types=SELF, props=("C04",), result=None,
+  requires=REQ_INV + DEFAULT + [("in_ack_wait", _pa_pre)],
+  modifies=["self._params.positive_ack_params.ack_counter", "self._params.positive_ack_params.ack_timer",
+            "self._params.positive_ack_params.ack_timer.expired", "self._pdus_to_be_sent", "self.states._num_packets_ready", "self.states.step", "self.states.state",
+            "self._params.finished_params.condition_code", "self._params.finished_params.file_status",
+            "self._params.completion_disposition", "self._params"],
+  ensures=[
+      Clause("C04.fin.not_expired_is_noop", lambda o, n, r: Implies_(Not_(_pa_expired(o)), And_(
+          len(n.trace) == 0, unchanged(o, n, "_params.positive_ack_params.ack_counter", "states.step"),
+          n.self._pdus_to_be_sent.length() == o.self._pdus_to_be_sent.length())), ("C04",)),
+      Clause("C04.fin.resend_below_limit", lambda o, n, r: Implies_(And_(_pa_expired(o), Not_(_pa_limit_hit(o))), And_(
+          _pa(n.self).ack_counter == _pa(o.self).ack_counter + 1, _fin_pdu_is_live(n), len(emitted(n)) == 1,
+          no_fault(n), len(timer_resets(n)) == 1, step_is(n.self, STEP.WAITING_FOR_FINISHED_ACK),
+          len(inds(n)) == 0)), ("C04", "C15")),
+      Clause("C04.fin.fault_exactly_at_limit", lambda o, n, r: Implies_(And_(_pa_expired(o), _pa_limit_hit(o)),
+          declared(n, CC.POSITIVE_ACK_LIMIT_REACHED, "notice_of_cancellation_cb")), ("C04", "C14")),
+      Clause("C04.fin.no_fault_before_limit", lambda o, n, r: Implies_(Not_(And_(_pa_expired(o), _pa_limit_hit(o))),
+          no_fault(n)), ("C04",)),
+      Clause("C04.fin.cancel_on_first_limit", lambda o, n, r: Implies_(And_(
+          _pa_expired(o), _pa_limit_hit(o), ne(o.self._params.completion_disposition, CANCELED)), And_(
+          step_is(n.self, STEP.WAITING_FOR_FINISHED_ACK), _pa(n.self).ack_counter == 0, _fin_pdu_is_live(n),
+          Eq_(n.self._params.finished_params.condition_code, CC.POSITIVE_ACK_LIMIT_REACHED),
+          Eq_(n.self._params.completion_disposition, CANCELED))), ("C04", "C14")),
+      # CFDP 4.11.2.3: a limit fault during the cancel exchange must end the transaction (bounded retries)
+      Clause("C04.fin.abandon_when_cancel_exchange_times_out", lambda o, n, r: Implies_(And_(
+          _pa_expired(o), _pa_limit_hit(o), eq(o.self._params.completion_disposition, CANCELED)),
+          And_(eq(n.self.states.state, IDLE), len(emitted(n)) == 0)), ("C04",)),
+  ] + inv_clauses(("C04",)),
+  modular=False)
+
+
+# ==============================================================================================
+# C01: DATA_COMPLETE is only ever established under the checksum guard
+# ==============================================================================================
+from stubs.cfdp import FS, fs_checksum, NULL_CK  # noqa: E402
+from spacepackets.cfdp import ChecksumType  # noqa: E402
+
+FS0 = z3.Const("fs0", FS)
+
+
+def _ck_matches(o):
+    p = o.self._params
+    crc = val(p.fp.crc32)
+    return Eq_(fs_checksum(FS0, to_z3_int(p.checksum_type), p.fp.file_name.p, to_z3_int(p.fp.progress)), crc.b)
+
+
+def _ck_trivial(o):
+    p = o.self._params
+    return Or_(eq(p.checksum_type, ChecksumType.NULL_CHECKSUM), B(p.fp.metadata_only))
+
+
+def _fpar(h):
+    return h._params.finished_params
+
+
+C("_checksum_verify", arg_types=SELF, props=("C01",), result=T.Bool,
+  requires=REQ_INV + DEFAULT + [
+      ("busy", lambda o: ne(o.self.states.state, IDLE)),
+      ("eof_seen", lambda o: Or_(_ck_trivial(o), Not_(isnone(o.self._params.fp.crc32)))),
+      # D9 (C12/C14): a cancelled transaction keeps its cancel condition -> verification must not run when cancelled
+      ("not_cancelled", lambda o: ne(o.self._params.completion_disposition, CANCELED)),
+  ],
+  modifies=["self._params.finished_params.delivery_code", "self._params.finished_params.condition_code"],
+  ensures=[
+      Clause("C01.guard", lambda o, n, r: iff(r, Or_(_ck_trivial(o), _ck_matches(o))), ("C01", "C09")),
+      Clause("C01.complete_iff_verified", lambda o, n, r: And_(
+          Implies_(r, And_(eq(_fpar(n.self).delivery_code, DeliveryCode.DATA_COMPLETE),
+                           eq(_fpar(n.self).condition_code, CC.NO_ERROR))),
+          Implies_(Not_(r), And_(Eq_(_fpar(n.self).delivery_code, _fpar(o.self).delivery_code),
+                                 Eq_(_fpar(n.self).condition_code, _fpar(o.self).condition_code)))), ("C01",)),
+      Clause("C01.checksum_over_progress", lambda o, n, r: Implies_(Not_(_ck_trivial(o)), (
+          len(vfs_ops(n, "calculate_checksum")) == 1 and And_(
+              Eq_(vfs_ops(n, "calculate_checksum")[0]["path"], o.self._params.fp.file_name),
+              Eq_(vfs_ops(n, "calculate_checksum")[0]["size"], o.self._params.fp.progress),
+              Eq_(vfs_ops(n, "calculate_checksum")[0]["checksum_type"], o.self._params.checksum_type)))), ("C01", "C05")),
+      Clause("C13.failure_declared_and_ignored", lambda o, n, r: And_(
+          Implies_(Not_(r), declared(n, CC.FILE_CHECKSUM_FAILURE, "ignore_cb")), Implies_(r, no_fault(n))), ("C13", "C14")),
+      Clause("C05.no_write", lambda o, n, r: len([e for e in vfs_ops(n) if e["op"] != "calculate_checksum"]) == 0
+             and len(emitted(n)) == 0 and len(inds(n)) == 0, ("C05",)),
+  ],
+  modular=False)
+
+
+# ==============================================================================================
+# C13: check-limit handling in unacknowledged mode
+# ==============================================================================================
+def _cl_expired(o):
+    return B(val(o.self._params.check_timer).expired)
+
+
+def _cl_hit(o):
+    return o.self._params.current_check_count + 1 >= rcfg(o.self).check_limit
+
+
+def _cl_ok(o):
+    return Or_(_ck_trivial(o), _ck_matches(o))
+
+
+C("_check_limit_handling", arg_types=SELF, props=("C13",), result=None,
+  requires=REQ_INV + DEFAULT + [
+      ("in_check_limit_step", lambda o: And_(step_is(o.self, STEP.RECV_FILE_DATA_WITH_CHECK_LIMIT_HANDLING),
+                                             ne(o.self.states.state, IDLE))),
+      ("eof_seen", lambda o: Not_(isnone(o.self._params.fp.crc32))),
+      ("not_cancelled", lambda o: ne(o.self._params.completion_disposition, CANCELED)),
+      ("incomplete_so_far", lambda o: eq(_fpar(o.self).delivery_code, DeliveryCode.DATA_INCOMPLETE)),
+  ],
+  modifies=["self._params.finished_params.delivery_code", "self._params.finished_params.condition_code",
+            "self._params.current_check_count", "self._params.check_timer.expired", "self.states.step",
+            "self._params.completion_disposition"],
+  ensures=[
+      Clause("C13.not_expired_is_noop", lambda o, n, r: Implies_(Not_(_cl_expired(o)), And_(
+          len(n.trace) == 0, unchanged(o, n, "_params.current_check_count", "states.step"))), ("C13",)),
+      Clause("C13.late_data_completes", lambda o, n, r: Implies_(And_(_cl_expired(o), _cl_ok(o)), And_(
+          step_is(n.self, STEP.TRANSFER_COMPLETION), eq(_fpar(n.self).delivery_code, DeliveryCode.DATA_COMPLETE),
+          eq(_fpar(n.self).condition_code, CC.NO_ERROR), no_fault(n),
+          eq(n.self._params.completion_disposition, COMPLETED))), ("C13",)),
+      Clause("C13.limit_fault_exactly_at_limit", lambda o, n, r: Implies_(And_(_cl_expired(o), Not_(_cl_ok(o))), And_(
+          Implies_(_cl_hit(o), And_(
+              len(fault_cbs(n)) == 2 and And_(Eq_(fault_cbs(n)[1]["cond"], CC.CHECK_LIMIT_REACHED),
+                                             fault_cbs(n)[1]["name"] == "notice_of_cancellation_cb"),
+              step_is(n.self, STEP.TRANSFER_COMPLETION), eq(_fpar(n.self).delivery_code, DeliveryCode.DATA_INCOMPLETE),
+              eq(_fpar(n.self).condition_code, CC.CHECK_LIMIT_REACHED), eq(n.self._params.completion_disposition, CANCELED))),
+          Implies_(Not_(_cl_hit(o)), And_(
+              len(fault_cbs(n)) == 1, n.self._params.current_check_count == o.self._params.current_check_count + 1,
+              len(timer_resets(n)) == 1, step_is(n.self, STEP.RECV_FILE_DATA_WITH_CHECK_LIMIT_HANDLING),
+              eq(_fpar(n.self).delivery_code, DeliveryCode.DATA_INCOMPLETE))))), ("C13", "C14")),
+      Clause("C13.no_pdu_no_indication_here", lambda o, n, r: len(emitted(n)) == 0 and len(inds(n)) == 0, ("C13",)),
+  ] + inv_clauses(("C13",)),
+  modular=False)
